@@ -15,6 +15,17 @@ pred sortedOff(items []Item) :=
 pred monoTs(items []Item) :=
     forall i, j :: 0 <= i && i <= j && j < len(items) ==> items[i].Timestamp <= items[j].Timestamp
 
+// the index computed from log file f under params p (I7 / C11)
+pred derived(items []Item, f int, p Params) :=
+    len(items) == recN(f)
+    && (forall k :: 0 <= k && k < len(items) ==>
+            items[k].Position == recPos(f, k) && items[k].Offset == recOffset(f, k)
+            && items[k].Timestamp == ite(p.Times, recTs(f, k), 0)
+            && items[k].KeyHash == ite(p.Keys, recHash(f, k), 0))
+
+func AppendKeys
+    flags assumed
+
 pred relative(o int64) := o == message.OffsetOldest || o == message.OffsetNewest
 
 // ---------------------------------------------------------------- Consume (C03)
